@@ -155,6 +155,13 @@ class AtomTheory:
                 return r
         raise Unsupported("atom attribute %s" % name)
 
+    def hasattr(self, interp, st, v, name):
+        if name == "element":
+            return KIND(v.expr) != 0       # isotopes and ions have one; elements do not
+        if name in ("symbol", "mass", "number", "charge"):
+            return True
+        raise Unsupported("hasattr(atom, %r)" % name)
+
     def setattr(self, interp, st, v, name, value, node=None):
         h = st.ghost.get("atom_setattr")
         if h is not None:
